@@ -22,7 +22,7 @@ CBMC_FLAGS = ['--object-bits', '12', '--bounds-check', '--pointer-check', '--div
               '--bounds-check', '--pointer-check']
 CBMC_FLAGS = ['--object-bits', '12', '--bounds-check', '--pointer-check', '--div-by-zero-check', '--signed-overflow-check',
               '--undefined-shift-check', '--conversion-check', '--pointer-overflow-check']
-ARITH_CLASSES = ('overflow', 'division-by-zero', 'undefined-shift')
+ARITH_CLASSES = ('overflow', 'division-by-zero', 'undefined-shift', 'conversion')
 MEM_KB = 16 * 1024 * 1024
 
 def sh(cmd, cwd=None, timeout=None, mem_kb=MEM_KB, env=None):
@@ -60,6 +60,8 @@ def classify(name, desc, job):
         m = re.match(r'^(\S+)\.requires\.(\d+): ', desc)
         if m:
             return 'callee-requires', '%s.requires.%s' % (m.group(1), m.group(2)), []
+        if desc.startswith('g2c-safety:'):
+            return 'safety:conversion', desc, []
         if desc.startswith('g2c:'):
             return 'model-limit', desc, []
         if 'noexcept region' in desc:
@@ -73,6 +75,9 @@ def classify(name, desc, job):
         return 'no-body', desc, []
     if cls in ('unwind', 'recursion'):
         return 'unwind', desc, []
+    if cls == 'overflow' and re.search(r'float to (signed|unsigned) integer type conversion', desc):
+        # replaced by the renderer's exact range assertion (CBMC's is off by one at -2^63)
+        return 'ignored:float-conversion', desc, []
     if cls == 'overflow' and re.search(r'(signed|unsigned) to (signed|unsigned) type conversion', desc):
         # integer <-> integer conversions are modulo 2^N with GCC (implementation-defined, never UB)
         return 'ignored:int-conversion', desc, []
@@ -118,7 +123,10 @@ def run_job(job, work, tier, cache_dir, versions):
     if unwind:
         res['bounded'] = dict(unwind=unwind, why=job.get('unwind_why', 'loops in rendered code'))
     variants = [('main', 'skip' if job.get('uf') else 'all', [])]
-    if job.get('uf'):
+    if job.get('uf_all'):
+        variants = [('main', 'all', ['G2C_ABSTRACT_MULDIV'])]
+        res['uf_abstraction'] = True
+    elif job.get('uf'):
         variants.append(('uf', 'only', ['G2C_ABSTRACT_MULDIV']))
         res['uf_abstraction'] = True
     res['clauses'] = []
